@@ -421,6 +421,40 @@ func checkC07(c *Ctx, r *Report) {
 				continue
 			}
 			adds := findInstrs(f, func(in ssa.Instruction) bool { return calleeNameIs(in, "AddHandler", "AddHandlerWithFunc") })
+			// a plain registration may be expressed through the match registration of the same host (itself under this
+			// rule): same protocol ID, same handler, and a predicate that accepts exactly that ID
+			if m == "SetStreamHandler" && len(adds) == 0 {
+				sib := "(*" + h.pkg + "." + h.typ + ").SetStreamHandlerMatch"
+				calls := callsIn(f, sib)
+				okD := len(calls) == 1
+				if okD {
+					a := callArgs(calls[0])
+					okD = len(a) == 4 && isParamVar(c, a[1], "pid") && isParamVar(c, a[3], "handler")
+					if pred := installedFunc(a[2]); okD && pred != nil && pred.Blocks != nil && len(pred.Params) == 1 {
+						eq := func(v ssa.Value) (bool, bool) {
+							bo, isB := v.(*ssa.BinOp)
+							if !isB || (bo.Op != token.EQL && bo.Op != token.NEQ) {
+								return false, false
+							}
+							x, y := strip(bo.X), strip(bo.Y)
+							isArg := func(v ssa.Value) bool { return v == ssa.Value(pred.Params[0]) || isParamCellLoad(c, v, pred.Params[0]) }
+							isPid := func(v ssa.Value) bool { return isParamVar(c, v, "pid") }
+							if (isArg(x) && isPid(y)) || (isArg(y) && isPid(x)) {
+								return true, bo.Op == token.EQL
+							}
+							return false, false
+						}
+						var tab map[int]int
+						var okT bool
+						asRoot(pred, func() { tab, okT = boolReturnTable(pred, []atomPred{eq}, 0) })
+						okD = okT && tab[1] == 2 && tab[0] == 1
+					} else {
+						okD = false
+					}
+				}
+				r7.Check(okD, k+": registers a wrapper that calls the caller's handler exactly once with the negotiated stream", f.Pos(), 2, "delegated to SetStreamHandlerMatch with an exact-ID predicate", "another handler (or none) runs for the protocol", "")
+				continue
+			}
 			ok := len(adds) == 1
 			if ok {
 				a := callArgs(adds[0].(ssa.CallInstruction))
